@@ -387,7 +387,7 @@ func checkMsgAssembly(p *Prog, r *Report) {
 			hi, isAdd := c.hi.(*ssa.BinOp)
 			if okRec && isPhi && isAdd && hi.Op == token.ADD && hi.X == ssa.Value(idx) {
 				lc, ok := hi.Y.(*ssa.Call)
-				if !ok || calleeName(&lc.Call) != "iface:pkg/entities.Record.GetRecordLength" || lc.Call.Value != sc.Call.Value {
+				if !ok || calleeName(&lc.Call) != "iface:pkg/entities.Record.GetRecordLength" || !sameValue(lc.Call.Value, sc.Call.Value) {
 					okRec = false
 				}
 				start, step := false, false
